@@ -3,17 +3,20 @@
    atomic acquireSlot steps, UnLock = send on the channel, the single scheduler goroutine popping the
    channel and running release = a loop of atomic releaseSlot steps, then wakeup = acquire of every
    lock handed back; recycle of a slot at any moment with any timestamp). [sf] (murmur3 & mask) is an
-   arbitrary function. [reachable sf s]: s is reached from the empty latches by ANY finite
-   interleaving of these steps, for any number of transactions / keys / timestamps; every Lock has
-   distinct keys (what txn.go passes).  held l = the first lacq keys of l (sorted by genLock). *)
+   arbitrary function, [ns] the number of slots. The automaton also contains the glue of scheduler.go: Lock()
+   (acquire loop, wg.Wait), UnLock() (closed flag, send on the channel of capacity 100), run() (receive,
+   release, wakeup, recycle trigger lastRecycleTime/counter, spawned recycle goroutines), Close().
+   [reach_any sf ns s]: s is reached from the empty scheduler by ANY finite interleaving of these steps, for
+   any number of transactions / keys (duplicates allowed) / timestamps.  [reach sf ns s]: the same with
+   distinct keys in every Lock (what txn.go passes).  held l = the first lacq keys of l (sorted by genLock). *)
 From Coq Require Import NArith List.
 From Verif Require Import Latch.Model Latch.ProofsOps Latch.ProofsBase Latch.ProofsInv Latch.ProofsSys Latch.ProofsThm.
 Import ListNotations.
 
-(* Exclusive: a lock counts a key as acquired iff the key's node names it as holder, so no key is held
-   by two locks; and from the return of Lock() with success (pc = TDone, not stale) until UnLock the
-   lock holds every one of its keys and no other lock holds any of them. *)
-Theorem C17_exclusive : forall sf s, reachable sf s ->
+(* Exclusive (no hypothesis on the key lists): a lock counts a key as acquired iff the key's node names it as
+   holder, so no key is held by two locks; and from the return of Lock() with success (pc = TDone, not stale)
+   until UnLock the lock holds every one of its keys and no other lock holds any of them. *)
+Theorem C17_exclusive : forall sf ns s, reach_any sf ns s ->
   (forall i k, In k (held (locks (lat s) i)) <-> holderK sf (lat s) k = Some i) /\
   (forall i j k, In k (held (locks (lat s) i)) -> In k (held (locks (lat s) j)) -> i = j) /\
   (forall i, pc s i = TDone -> lstale (locks (lat s) i) = false ->
@@ -22,9 +25,15 @@ Theorem C17_exclusive : forall sf s, reachable sf s ->
 Proof. exact exclusive. Qed.
 Print Assumptions C17_exclusive.
 
+(* Lock() never reaches panic("should never run here") *)
+Theorem C17_lock_returns_ok : forall sf ns s i, reach_any sf ns s -> pc s i = TDone ->
+  lstale (locks (lat s) i) = true \/ lacq (locks (lat s) i) = length (lkeys (locks (lat s) i)).
+Proof. exact lock_returns_ok. Qed.
+Print Assumptions C17_lock_returns_ok.
+
 (* Stale, sound: a lock is flagged stale only if ANOTHER lock released (ERel in the ghost log, written
    by releaseSlot) one of its keys with a commit ts greater than its start ts. *)
-Theorem C17_stale_sound : forall sf s i, reachable sf s -> lstale (locks (lat s) i) = true ->
+Theorem C17_stale_sound : forall sf ns s i, reach_any sf ns s -> lstale (locks (lat s) i) = true ->
   exists k j c, In k (lkeys (locks (lat s) i)) /\ j <> i /\ In (ERel k j c) (glog (lat s)) /\
                 (lstart (locks (lat s) i) < c)%N.
 Proof. exact stale_sound. Qed.
@@ -32,26 +41,23 @@ Print Assumptions C17_stale_sound.
 
 (* Stale, complete: a lock that is not stale acquired each key it holds at a moment (EAcq in the log)
    at which every earlier release of that key — not counting releases whose node was recycled since
-   (live_rels stops at ERecycle k: the explicit recycle window) — had commit ts <= its start ts.
-   With C17_exclusive (a returned non-stale lock holds all its keys) this is "stale exactly when". *)
-Theorem C17_stale_complete : forall sf s i k, reachable sf s -> lstale (locks (lat s) i) = false ->
+   (live_rels stops at ERecycle k: the explicit recycle window) — had commit ts <= its start ts. *)
+Theorem C17_stale_complete : forall sf ns s i k, reach_any sf ns s -> lstale (locks (lat s) i) = false ->
   In k (held (locks (lat s) i)) ->
   exists h1 h2, glog (lat s) = h1 ++ EAcq k i :: h2 /\
                 forall c, In c (live_rels k h2) -> (c <= lstart (locks (lat s) i))%N.
 Proof. exact stale_complete. Qed.
 Print Assumptions C17_stale_complete.
 
-(* every release in the log belongs to a lock whose UnLock was called *)
-Theorem C17_release_logged : forall sf s k j c, reachable sf s -> In (ERel k j c) (glog (lat s)) ->
+Theorem C17_release_logged : forall sf ns s k j c, reach_any sf ns s -> In (ERel k j c) (glog (lat s)) ->
   pc s j = TUnl \/ pc s j = TRel.
 Proof. exact rel_logged. Qed.
 Print Assumptions C17_release_logged.
 
-(* No lost wake-up: a lock is in the waiting list of a slot iff its thread is blocked (pc = TWait), it is
-   not in the scheduler's hands (wake-up list / being re-acquired) and its next key lives in that slot;
-   every such waiter is not stale and its next key has a holder or a pending wake-up for that key;
-   waiting lists have no duplicates. *)
-Theorem C17_no_lost_wakeup : forall sf s, reachable sf s ->
+(* No lost wake-up, across the channel hand-off too: a lock is in the waiting list of a slot iff its thread is
+   blocked (pc = TWait), it is not in the scheduler's hands (wake-up list / being re-acquired) and its next key
+   lives in that slot; every such waiter is not stale and its next key has a holder or a pending wake-up. *)
+Theorem C17_no_lost_wakeup : forall sf ns s, reach_any sf ns s ->
   (forall sl i, In i (waitS (lat s) sl) <->
      (pc s i = TWait /\ running (sch s) i = false /\ ~ In i (sched_wl (sch s)) /\
       exists k, key_at (locks (lat s) i) = Some k /\ sf k = sl)) /\
@@ -63,37 +69,56 @@ Theorem C17_no_lost_wakeup : forall sf s, reachable sf s ->
 Proof. exact no_lost_wakeup. Qed.
 Print Assumptions C17_no_lost_wakeup.
 
-(* No deadlock (and release never panics): in a reachable state where no step other than starting a new
-   transaction or recycling is enabled, every transaction is either not started or completely released:
-   no thread is blocked, acquiring, holding, or waiting to be released. *)
-Theorem C17_no_deadlock : forall sf s, reachable sf s -> quiescent sf s ->
+(* Channel / Close(): a lock is dropped (UnLock without send) only after Close(); everything in the channel was
+   sent by an UnLock and is still drained (LPop does not look at closed); at most 100 locks are pending. *)
+Theorem C17_channel : forall sf ns s, reach_any sf ns s ->
+  (forall i, pc s i = TDrop -> closed (gl s) = true) /\
+  (forall i, In i (chan s) -> pc s i = TUnl) /\ length (chan s) <= lock_chan_size.
+Proof. exact closed_facts. Qed.
+Print Assumptions C17_channel.
+
+(* No deadlock (and release never panics), distinct keys, scheduler not closed: in a reachable state where no
+   step other than starting a transaction, Close() or a recycle is enabled, every transaction is either not
+   started or completely released (a full channel never blocks for ever: UnLock is enabled below 100 pending). *)
+Theorem C17_no_deadlock : forall sf ns s, reach sf ns s -> closed (gl s) = false -> quiescent sf ns s ->
   forall i, pc s i = TNew \/ pc s i = TRel.
 Proof. exact no_deadlock. Qed.
 Print Assumptions C17_no_deadlock.
 
+(* The composite acquire() of latch.go (used by Lock() and wakeup()) is the iteration of the atomic steps *)
+Theorem C17_acquire_is_steps : forall sf ns s i L' r, reach_any sf ns s -> pc s i = TAcq ->
+  acquire sf (lat s) i = (L', r) ->
+  exists n s', run sf ns (repeat (LAcq i) (S n)) s = Some s' /\ lat s' = L' /\ pc s' i = acq_post r /\
+               chan s' = chan s /\ sch s' = sch s /\ gl s' = gl s.
+Proof. exact acquire_refines. Qed.
+Print Assumptions C17_acquire_is_steps.
+
 (* ---- non-vacuity: concrete reachable runs (one slot) ---- *)
-Example C17_ex_reachable : exists s, run sf0 tr_finish init_state = Some s /\ reachable sf0 s.
+Example C17_ex_reachable : exists s, run sf0 1 tr_finish init_state = Some s /\ reach sf0 1 s.
 Proof.
-  destruct (run sf0 tr_finish init_state) as [s|] eqn:E; [|vm_compute in E; discriminate].
-  exists s. split; auto. eapply run_reachable; [apply r_init | apply allowed_tr_finish | exact E].
+  destruct (run sf0 1 tr_finish init_state) as [s|] eqn:E; [|vm_compute in E; discriminate].
+  exists s. split; auto. eapply run_reach; [apply r_init | apply allowed_tr_finish | exact E].
 Qed.
-(* T1 is blocked in the waiting list behind holder T0 *)
 Example C17_ex_waiter :
-  option_map (fun s => (swaiting (slots (lat s) 0%N), pc s 1, holderK sf0 (lat s) 2%N)) (run sf0 tr_contend init_state)
+  option_map (fun s => (swaiting (slots (lat s) 0%N), pc s 1, holderK sf0 (lat s) 2%N)) (run sf0 1 tr_contend init_state)
   = Some ([1], TWait, Some 0).
 Proof. vm_compute. reflexivity. Qed.
-(* T0 releases key 2 with commit 5 > start 2 of T1: handed over stale; the wake-up is pending *)
 Example C17_ex_stale :
-  option_map (fun s => (lstale (locks (lat s) 1), holderK sf0 (lat s) 2%N, sch s)) (run sf0 tr_handoff init_state)
+  option_map (fun s => (lstale (locks (lat s) 1), holderK sf0 (lat s) 2%N, sch s)) (run sf0 1 tr_handoff init_state)
   = Some (true, Some 1, SRel 0 [1]).
 Proof. vm_compute. reflexivity. Qed.
-(* all three finish; T2 (start 7 >= 5) acquires without being stale *)
 Example C17_ex_finish :
-  option_map (fun s => (pc s 0, pc s 1, pc s 2, lstale (locks (lat s) 2), sch s, chan s)) (run sf0 tr_finish init_state)
-  = Some (TRel, TRel, TRel, false, SIdle, []).
+  option_map (fun s => (pc s 0, pc s 1, pc s 2, lstale (locks (lat s) 2), sch s, chan s, counter (gl s))) (run sf0 1 tr_finish init_state)
+  = Some (TRel, TRel, TRel, false, SIdle, [], 3%N).
 Proof. vm_compute. reflexivity. Qed.
-(* the hypothesis "distinct keys per Lock" is necessary: the code blocks a lock with a duplicated key on itself *)
+(* the hypothesis "distinct keys per Lock" of C17_no_deadlock is necessary *)
 Example C17_ex_dup_key_self_deadlock :
-  exists s, run sf0 [LStart 0 [1;1]%N 5%N; LAcq 0; LAcq 0] init_state = Some s /\
-            pc s 0 = TWait /\ In 0 (waitS (lat s) 0%N) /\ quiescent sf0 s.
+  exists s, run sf0 1 [LStart 0 [1;1]%N 5%N; LAcq 0; LAcq 0] init_state = Some s /\ pc s 0 = TWait /\
+            In 0 (waitS (lat s) 0%N) /\ closed (gl s) = false /\ quiescent sf0 1 s.
 Proof. exact dup_key_self_deadlock. Qed.
+(* the hypothesis "not closed" is necessary: after Close() UnLock sends nothing (no panic), the latches of that
+   lock stay held and a Lock() blocked behind it never returns — what scheduler.go does *)
+Example C17_ex_closed_strands_waiter :
+  exists s, run sf0 1 tr_closed init_state = Some s /\ reach sf0 1 s /\ closed (gl s) = true /\
+            pc s 0 = TDrop /\ pc s 1 = TWait /\ holderK sf0 (lat s) 2%N = Some 0 /\ quiescent sf0 1 s.
+Proof. exact closed_strands_waiter. Qed.
